@@ -22,7 +22,8 @@ def main(tier, replay):
         "OpenMP build of STIR with schedule points; scenarios (fresh objects every time, T = 2,4,7 threads; thorough: 2..16; 16 threads on 2 work items), "
         "seeded yields/sleeps at every schedule point: tables / cache / project / loglik; loglik_full (1..3 subsets, optional additive term, normalisation "
         "factors, end-plane zeroing: per subset value, sub-gradient, sub-gradient+sensitivity, add_subset_sensitivity, sensitivity from set_up, "
-        "accumulate_sub_Hessian_times_input, add_multiplication_with_approximate_sub_Hessian); projdata_stream (ProjDataInterfile/ProjDataFromStream on "
+        "accumulate_sub_Hessian_times_input, add_multiplication_with_approximate_sub_Hessian; plus the value asked 150 times from one T-thread object on a "
+        "small data set, unperturbed, to reach the nanosecond window of the per-viewgram reduction); projdata_stream (ProjDataInterfile/ProjDataFromStream on "
         "files written by the harness, both storage orders, and ProjDataInMemory: .io = the harness' own parallel loop of get_/set_ viewgram / sinogram / "
         "segment calls writing disjoint regions and reading against an in-memory copy, exact; .project = forward projection into a file (every viewgram "
         "compared with the file of the single-thread run) and back projection from a file; .loglik = the loglik_full quantities with data, additive term and "
@@ -37,8 +38,9 @@ def main(tier, replay):
         extra=dict(states=stats.get("ops", 0), transitions=stats.get("ops", 0)))
     chk.assumptions += ["protocol-level theorems only: OpenMP atomic/critical/locks are assumed to give sequentially consistent access to the flags and caches",
                         "libgomp and the hardware memory model are not modelled; data races outside the modelled protocols are visible only to the perturbed runs",
-                        "races that are benign on this hardware/compiler (a dropped `omp atomic` on an aligned float or double-free-of-effect flag writes, a dropped "
-                        "critical around a memcpy of disjoint regions) do not change results and are invisible to the comparison with the single-thread run",
+                        "races that are benign on this hardware/compiler (a dropped `omp atomic` on an aligned float, as in the scatter cache; a dropped critical "
+                        "around copies of disjoint regions, as in ProjDataInMemory) do not change results and are invisible to the comparison with the "
+                        "single-thread run (measured: both go unnoticed at quick and thorough tier); only a race detector would see them",
                         "ProjDataFromStream / ProjDataInMemory have no schedule points: interleavings inside their critical sections are provoked by contention "
                         "(hundreds of short calls per thread), not forced",
                         "list-mode gradients (PoissonLogLikelihoodWithLinearModelForMeanAndListModeDataWithProjMatrixByBin) are not exercised by this harness; "
